@@ -84,11 +84,17 @@ def gen_case(rng, tier):
             if rng.random() < 0.03:
                 p = p + [16]
             segs = gen_segs(rng, kind)
+            ask = [p + [rng.randrange(16)], near_key(rng, members)] if rng.random() < 0.4 else []
+            for q in ask:
+                ops.append((rng.choice(["nu", "nr"]), [x for x in q if x < 16]))
             ops.append(("explore", p, segs))
             try:
                 f = f.explore(tuple(p), [tuple(s) for s in segs])
             except Exception:
                 pass
+            for q in ask:
+                ops.append(("nu", [x for x in q if x < 16]))
+                ops.append(("nr", [x for x in q if x < 16]))
         elif r < 0.65:
             k = rng.randint(1, 3)
             ps = [list(x) for x in rng.sample(members, min(k, len(members)))] if members else [[1]]
@@ -96,11 +102,18 @@ def gen_case(rng, tier):
                 ps.append([rng.randrange(16), rng.randrange(16), 9])
             if rng.random() < 0.1 and ps:
                 ps.append(list(ps[0]))
+            # the same question before and after: a fog derived from another one must not answer from what the old one knew
+            ask = [list(ps[0]) + [rng.randrange(16) for _ in range(rng.randint(0, 2))], near_key(rng, members)]
+            for q in ask:
+                ops.append((rng.choice(["nu", "nr"]), q))
             ops.append(("mark", ps))
             try:
                 f = f.mark_all_complete([tuple(p) for p in ps])
             except Exception:
                 pass
+            for q in ask:
+                ops.append(("nu", q))
+                ops.append(("nr", q))
         elif r < 0.8:
             ops.append(("nu", near_key(rng, members)))
         elif r < 0.95:
